@@ -37,17 +37,41 @@ def build_instance(inst, name="verif", **metadata) -> JobShopInstance:
     return JobShopInstance(jobs, name=name, **metadata)
 
 
+def mid(m):
+    """machine id -> 1-based int; anything that is not an integer id becomes a sentinel (can only mismatch)."""
+    v = num(m)
+    return v + 1 if isinstance(v, int) and not isinstance(v, bool) and abs(v) < 900000 else NONINT
+
+
 def instance_to_abstract(instance: JobShopInstance):
     return [
-        [{"ms": [m + 1 for m in op.machines], "d": int(op.duration)} for op in job]
+        [{"ms": [mid(m) for m in op.machines], "d": num(op.duration)} for op in job]
         for job in instance.jobs
     ]
 
 
+FILTER_STYLE = {"mix": True, "n": 0}
+
+
 def make_filter(filt):
+    """The composite is built the ways the API allows: names, enum members or the
+    functions themselves, handed over as a list, a tuple, a generator or an iterator."""
     if not filt:
         return None
-    return create_composite_operation_filter([FILTER_NAMES[f] for f in filt])
+    names = [FILTER_NAMES[f] for f in filt]
+    if not FILTER_STYLE["mix"]:
+        return create_composite_operation_filter(names)
+    from job_shop_lib.dispatching import ReadyOperationsFilterType, ready_operations_filter_factory
+    FILTER_STYLE["n"] += 1
+    k = FILTER_STYLE["n"]
+    items = []
+    for i, nm in enumerate(names):
+        style = (k + i) % 3
+        items.append(nm if style == 0 else ReadyOperationsFilterType(nm) if style == 1
+                     else ready_operations_filter_factory(nm))
+    shape = k % 4
+    arg = items if shape == 0 else tuple(items) if shape == 1 else (x for x in items) if shape == 2 else iter(items)
+    return create_composite_operation_filter(arg)
 
 
 def make_dispatcher(instance, filt) -> Dispatcher:
@@ -161,7 +185,7 @@ def instance_fingerprint(instance: JobShopInstance):
         "jobs": [
             [
                 {
-                    "ms": [int(m) + 1 for m in op.machines],
+                    "ms": [mid(m) for m in op.machines],
                     "d": num(op.duration),
                     "j": op.job_id + 1,
                     "p": op.position_in_job + 1,
